@@ -296,13 +296,13 @@ fn sym_subpath() -> ([u8; PATH_L], usize) {
 }
 
 fn open_body(masked: bool) {
-    open_body_s(masked, [P_ANY; 13], 0, 0)
+    open_body_s(masked, [P_ANY; 13], 0, 0, true)
 }
 
 /// plan: fault plan of the (up to) 13 fallible steps of one lookup with one retry:
 ///   [0] base lookup [1] statx(base) [2] fstatfs(base) [3] sub-path lookup [4] statx(fd) [5] fstatfs(fd)
 ///   [6] new_unmasked  [7..12] the same six on the retry handle
-fn open_body_s(masked: bool, plan: [u8; 13], fixed_errno: i32, retry_handle: u64) {
+fn open_body_s(masked: bool, plan: [u8; 13], fixed_errno: i32, retry_handle: u64, sym_path: bool) {
     install_close_model();
     reset(3);
     crate::verif_kani::kernel::counter_reset();
@@ -319,13 +319,22 @@ fn open_body_s(masked: bool, plan: [u8; 13], fixed_errno: i32, retry_handle: u64
     let hfd = given_fd(false);
     let hmnt: Option<u64> = kani::any();
     let h = ProcfsHandle::verif_make(hfd, hmnt, masked, kani::any());
-    let (buf, len) = sym_subpath();
+    // heavy scenarios keep the sub-path and base concrete: every symbolic branch
+    // before an error-value assignment deepens the path guard CBMC carries
+    let (buf, len) = if sym_path {
+        sym_subpath()
+    } else {
+        let mut b = [0u8; PATH_L];
+        b[0] = b'x';
+        (b, 1)
+    };
     let sub = Path::new(std::ffi::OsStr::from_bytes(&buf[..len]));
     let bits: i32 = kani::any();
-    let base = match kani::any::<u8>() % 3 {
-        0 => ProcfsBase::ProcRoot,
-        1 => ProcfsBase::ProcSelf,
-        _ => ProcfsBase::ProcThreadSelf,
+    let base = if sym_path {
+        let sel: u8 = kani::any();
+        if sel == 0 { ProcfsBase::ProcRoot } else if sel == 1 { ProcfsBase::ProcSelf } else { ProcfsBase::ProcThreadSelf }
+    } else {
+        ProcfsBase::ProcSelf
     };
     let res = h.open(base, sub, OpenFlags::from_bits_retain(bits));
     let (ok, retfd, kind) = match &res {
@@ -417,7 +426,7 @@ open_h!(procfs_open_unmasked, false);
 open_h!(procfs_open_masked, true);
 
 macro_rules! open_s {
-    ($name:ident, $masked:expr, $plan:expr, $errno:expr, $rh:expr) => {
+    ($name:ident, $masked:expr, $plan:expr, $errno:expr, $rh:expr, $sym:expr) => {
         #[kani::proof]
         #[kani::unwind(18)]
         #[kani::stub(crate::resolvers::procfs::ProcfsResolver::resolve, k_proc_resolve)]
@@ -427,7 +436,7 @@ macro_rules! open_s {
         #[kani::stub(crate::syscalls::statx, k_statx)]
         #[kani::stub(alloc::fmt::format, k_format)]
         fn $name() {
-            open_body_s($masked, $plan, $errno, $rh);
+            open_body_s($masked, $plan, $errno, $rh, $sym);
         }
     };
 }
@@ -436,13 +445,13 @@ const SUBFAIL: [u8; 13] = [P_OK, P_OK, P_OK, P_FAIL, P_ANY, P_ANY, P_ANY, P_ANY,
 const RETRY_OK: [u8; 13] = [P_OK, P_OK, P_OK, P_FAIL, P_ANY, P_ANY, P_OK, P_OK, P_OK, P_OK, P_OK, P_OK, P_OK];
 const RETRY_ENOENT: [u8; 13] = [P_OK, P_OK, P_OK, P_FAIL, P_ANY, P_ANY, P_OK, P_OK, P_OK, P_OK, P_FAIL, P_ANY, P_ANY];
 // every kernel step answers Ok; mount ids / fs types stay symbolic (EXDEV vs success decided by the solver)
-open_s!(procfs_open_okpath, false, OK6, 0, 0);
+open_s!(procfs_open_okpath, false, OK6, 0, 0, true);
 // the sub-path lookup fails with an arbitrary errno on an unmasked handle: no retry, clean error
-open_s!(procfs_open_lookup_fails, false, SUBFAIL, 0, 0);
+open_s!(procfs_open_lookup_fails, false, SUBFAIL, 0, 0, false);
 // masked handle, lookup says ENOENT, retry on an unmasked handle succeeds
-open_s!(procfs_open_masked_retry_ok, true, RETRY_OK, libc::ENOENT, 1);
+open_s!(procfs_open_masked_retry_ok, true, RETRY_OK, libc::ENOENT, 1, false);
 // masked handle, ENOENT, and the "unmasked" retry handle is masked again and also says ENOENT
-open_s!(procfs_open_masked_retry_still_masked, true, RETRY_ENOENT, libc::ENOENT, 2);
+open_s!(procfs_open_masked_retry_still_masked, true, RETRY_ENOENT, libc::ENOENT, 2, false);
 
 // ---------------------------------------------------------------------------
 // open_follow: the ONLY place a link is followed on purpose (C05 / C06 O6.5 / C07 O7.3)
@@ -564,13 +573,17 @@ fn open_follow_body(is_link: u8) {
                     // ... and only after the link dentry itself was found on the parent's mount
                     let e = k.ent(parent).unwrap();
                     assert!(e.statx_seen);
-                    let (lfd, lid, lmask) = crate::verif_kani::kernel::last_named_mnt();
-                    assert!(lfd == parent, "mount id of the link itself was never compared");
-                    let link_mnt = if lmask & 0x5000 != 0 { Some(lid) } else { None };
                     let parent_mnt = if e.statx_ok && e.mnt_mask & 0x5000 != 0 { Some(e.mnt_id) } else { None };
-                    assert!(named_statx_ok() || parent_mnt.is_none());
+                    assert!(named_statx_attempted(parent), "mount id of the link itself was never queried");
                     if named_statx_ok() {
+                        let (lfd, lid, lmask) = crate::verif_kani::kernel::last_named_mnt();
+                        assert!(lfd == parent);
+                        let link_mnt = if lmask & 0x5000 != 0 { Some(lid) } else { None };
                         assert!(link_mnt == parent_mnt, "link on a different mount was followed");
+                    } else {
+                        // statx unsupported (ENOSYS/EINVAL) for the link: only acceptable when
+                        // the parent's mount id is unknown as well (pre-5.8 kernel)
+                        assert!(parent_mnt.is_none());
                     }
                     assert!(ok == c.ok);
                     if ok {
@@ -588,6 +601,19 @@ fn open_follow_body(is_link: u8) {
     kani::cover!(ok && nfollow == 0, "plain open");
     kani::cover!(!ok && kind == Some(ErrorKind::OsError(Some(libc::EXDEV))), "over-mounted link refused");
     kani::cover!(trailing, "trailing slash implies O_DIRECTORY");
+}
+
+fn named_statx_attempted(parent: i32) -> bool {
+    let k = kref();
+    let mut a = false;
+    let mut i = 0;
+    while i < MAX_CALLS {
+        if i < k.ncalls && k.log[i].kind == C_STATX && k.log[i].name_len > 0 && k.log[i].dirfd == parent {
+            a = true;
+        }
+        i += 1;
+    }
+    a
 }
 
 fn named_statx_ok() -> bool {
